@@ -789,6 +789,13 @@ def emit_fn(asm, unit, fs, src, canary):
             log.append('R16')
         if n16 == 0:
             raise Lost(f'lost anchor: {fs.qual}: no `match` on string literals found (R16)')
+    # R6h: for a parameter `X: &str`, `X.len() == 0` is `X.is_empty()` and `X.len() != 0` / `X.len() > 0` is `!X.is_empty()`
+    #      (std: str::is_empty is defined as len() == 0; vstd relates is_empty, not the byte length, to the view)
+    for pm in re.finditer(r'(\w+)\s*:\s*&(?:\'\w+\s+)?str\b', src.text[fn_kw:bo]):
+        x = pm.group(1)
+        for m in src.find_code(r'\b' + re.escape(x) + r'\.len\(\)\s*(==|!=|>)\s*0\b', bo, bc + 1):
+            ed.add(m.start(), m.end(), (x + '.is_empty()') if m.group(1) == '==' else ('!' + x + '.is_empty()'), ('rw', 'R6h'))
+            log.append('R6h')
     ed.soft = True
     global_rewrites(src, ed, fn_kw, bc + 1, log, item_ty)
     if getattr(fs, 'boxiter', False):
